@@ -58,6 +58,9 @@ func (c12) Cases(tier string, seed int64, kf *KnownFindings) []Case {
 			}
 		}
 	}
+	add(Case{Kind: "stall", Count: 1})
+	add(Case{Kind: "nilmaps", Count: 1})
+	add(Case{Kind: "nilmaps", N: 8, Count: 200, Opt: []string{"race"}})
 	return cs
 }
 
@@ -377,6 +380,14 @@ func scribbleBytes(v reflect.Value, depth int) {
 
 func (c12) Run(c Case, env *Env) Result {
 	var res Result
+	switch c.Kind {
+	case "stall":
+		c12stall(c, env, &res)
+		return res
+	case "nilmaps":
+		c12nilmaps(c, env, &res)
+		return res
+	}
 	feats := []string{fmt.Sprintf("goroutines=%d", c.N), fmt.Sprintf("GOMAXPROCS=%d", c.M), "instances=" + instKinds[c.K]}
 	cc := c
 	cc.Sub = 0
@@ -551,3 +562,133 @@ func sameNames(a, b map[string]string) bool {
 }
 
 var _ = mon.NewReader
+
+// ---- an instance whose writer / reader is stalled does not stall another instance
+
+type gateWriter struct {
+	k, calls int
+	entered  chan struct{}
+	gate     chan struct{}
+	buf      bytes.Buffer
+}
+
+func (g *gateWriter) Write(p []byte) (int, error) {
+	g.calls++
+	if g.calls == g.k {
+		close(g.entered)
+		<-g.gate // the destination does not take the bytes yet (a pipe, a socket under back-pressure)
+	}
+	return g.buf.Write(p)
+}
+
+// c12stall: encoder A is held inside its k-th Write (for every k); meanwhile encoder B - another
+// instance, another writer - encodes a value of a class name never seen before in this process and
+// must return. If B waits for A, every goroutine of the worker is blocked and the Go runtime ends the
+// process with "all goroutines are asleep - deadlock!" (the worker has no timers): a verdict without a clock.
+func c12stall(c Case, env *Env, res *Result) {
+	val := &zoo.WithInner{X: zoo.Inner{A: 1, S: "s"}, P: &zoo.Inner{A: 2, S: "p"}, N: 3}
+	names := func(tag string) map[string]string {
+		return map[string]string{"WithInner": "stall." + tag + ".WithInner", "Inner": "stall." + tag + ".Inner"}
+	}
+	probe := &gateWriter{k: -1}
+	hessian.NewEncoder(probe, names("probe")).WriteObject(val)
+	W := probe.calls
+	for k := 1; k <= W; k++ {
+		env.J(c.Idx, k)
+		res.Evals++
+		gw := &gateWriter{k: k, entered: make(chan struct{}), gate: make(chan struct{})}
+		done := make(chan struct{})
+		go func() {
+			defer close(done)
+			hessian.NewEncoder(gw, names(fmt.Sprintf("a%d", k))).WriteObject(val)
+		}()
+		<-gw.entered
+		// A is inside its k-th Write. B: a different instance, its own writer, a class name new to the process.
+		w := &mon.CountingWriter{}
+		err := hessian.NewEncoder(w, names(fmt.Sprintf("b%d", k))).WriteObject(val)
+		if err != nil || w.Buf.Len() == 0 {
+			env.Viol(res, Violation{Class: "result-differs-under-concurrency", Features: []string{"stalled-writer"}, Detail: fmt.Sprintf("while another encoder was held in Write #%d, an independent encoder failed: %v", k, err), Case: c})
+		}
+		// and a decoder of yet another class name
+		wire, _ := hessian.ToBytes(&zoo.Inner{A: 5, S: "d"}, map[string]string{"Inner": fmt.Sprintf("stall.d%d.Inner", k)})
+		if _, derr := hessian.ToObject(wire, map[string]reflect.Type{fmt.Sprintf("stall.d%d.Inner", k): reflect.TypeOf(zoo.Inner{})}); derr != nil {
+			env.Viol(res, Violation{Class: "result-differs-under-concurrency", Features: []string{"stalled-writer"}, Detail: fmt.Sprintf("while an encoder was held in Write #%d, an independent decode failed: %v", k, derr), Case: c})
+		}
+		close(gw.gate)
+		<-done
+	}
+	res.NT = append(res.NT, Hash64("stall"), Hash64("stall2"))
+	res.Count("writes_at_which_an_encoder_was_held_while_another_instance_worked", int64(W))
+}
+
+// ---- instances built WITHOUT maps have private maps
+
+func c12nilmaps(c Case, env *Env, res *Result) {
+	wire, _ := hessian.ToBytes(&zoo.Inner{A: 5, S: "d"}, map[string]string{"Inner": "nil.maps.Inner"})
+	outcome := func(d *hessian.Decoder) string {
+		v, err := d.Decode(wire)
+		return fmt.Sprintf("%T/%v", v, err != nil)
+	}
+	encOutcome := func(e *hessian.Encoder) string {
+		b, err := e.Encode(&zoo.Inner{A: 1, S: "e"})
+		return fmt.Sprintf("%x/%v", b, err != nil)
+	}
+	race := false
+	for _, o := range c.Opt {
+		race = race || o == "race"
+	}
+	if race {
+		// every goroutine owns its map-less instances and registers into them: nothing is shared
+		var wg sync.WaitGroup
+		for g := 0; g < c.N; g++ {
+			wg.Add(1)
+			go func(g int) {
+				defer wg.Done()
+				for i := 0; i < c.Count; i++ {
+					d := hessian.NewDecoder(nil, nil)
+					d.RegisterVal(fmt.Sprintf("c%d.%d", g, i), zoo.Inner{})
+					d.RegisterType("nil.maps.Inner", reflect.TypeOf(zoo.Inner{}))
+					d.Decode(wire)
+					e := hessian.NewEncoder(nil, nil)
+					e.RegisterNameType("Inner", fmt.Sprintf("r%d", g))
+					e.Encode(&zoo.Inner2{})
+					s := hessian.NewSerializer(nil, nil)
+					s.ToBytes(&zoo.WithInner{})
+					s.ToObject(wire)
+					atomic.AddInt64(&res.Evals, 1)
+				}
+			}(g)
+		}
+		wg.Wait()
+		res.NT = append(res.NT, Hash64("nilmaps-race"))
+		return
+	}
+	// what an instance with an explicit, private, EMPTY map does is what a map-less one must do,
+	// whatever was registered through OTHER map-less instances before
+	wantDec := outcome(hessian.NewDecoder(nil, map[string]reflect.Type{}))
+	wantEnc := encOutcome(hessian.NewEncoder(nil, map[string]string{}))
+	for round := 0; round < 20; round++ {
+		res.Evals++
+		d1 := hessian.NewDecoder(nil, nil)
+		d1.RegisterVal("nil.maps.Inner", zoo.Inner{})
+		d1.RegisterType("nil.maps.Other", reflect.TypeOf(zoo.Inner2{}))
+		d1.Decode(wire)
+		e1 := hessian.NewEncoder(nil, nil)
+		e1.RegisterNameType("Inner", "renamed.by.e1")
+		e1.Encode(&zoo.Inner{})
+		hessian.NewSerializer(nil, nil).ToBytes(&zoo.Inner{})
+		if got := outcome(hessian.NewDecoder(nil, nil)); got != wantDec {
+			env.Viol(res, Violation{Class: "shared-map-written", Features: []string{"instances-without-maps"}, Detail: fmt.Sprintf("after RegisterVal / RegisterType on ANOTHER decoder built without a type map, a new map-less decoder gives %s (one with a private empty map: %s)", got, wantDec), Case: c})
+			break
+		}
+		if got := encOutcome(hessian.NewEncoder(nil, nil)); got != wantEnc {
+			env.Viol(res, Violation{Class: "shared-map-written", Features: []string{"instances-without-maps"}, Detail: fmt.Sprintf("after RegisterNameType on ANOTHER encoder built without a name map, a new map-less encoder gives %s (one with a private empty map: %s)", got, wantEnc), Case: c})
+			break
+		}
+		if v, err := hessian.ToObject(wire, nil); fmt.Sprintf("%T/%v", v, err != nil) != wantDec {
+			env.Viol(res, Violation{Class: "shared-map-written", Features: []string{"instances-without-maps"}, Detail: "ToObject without a type map is influenced by registrations on other map-less decoders", Case: c})
+			break
+		}
+	}
+	res.NT = append(res.NT, Hash64("nilmaps"), Hash64("nilmaps2"))
+}
